@@ -83,7 +83,7 @@ func genSchedCmd(t *rapid.T, tag string, first bool, near []string) kit.Cmd {
 	set := func(l string) string { return pick(l, "s1", "s2") }
 	anyk := func(l string) string { return pick(l, schedKeys...) }
 	side := func(l string) string { return gen.Pick(t, l, "LEFT", "RIGHT") }
-	w := []int{6, 5, 5, 4, 4, 8, 4}
+	w := []int{6, 5, 5, 4, 9, 8, 4}
 	if !first {
 		w = []int{7, 3, 3, 3, 0, 10, 5}
 		if schedDeadlines {
@@ -511,7 +511,7 @@ func flat(v respx.Value) string {
 func schedPrepare(c Case, n int) ([]*inproc.DB, time.Time, string) {
 	dbs := make([]*inproc.DB, n)
 	for i := range dbs {
-		dbs[i] = inproc.New(c.ShardNum, 0)
+		dbs[i] = inproc.New(c.ShardNum, 1)
 		for _, cmd := range c.Pre {
 			if r := dbs[i].Do(cmd.Bytes()); r.Panic != "" || r.DecErr != nil || r.Val.Kind == '-' {
 				return nil, time.Time{}, fmt.Sprintf("prologue %s: %s %s", cmd.String(), r.Val.String(), r.Panic)
@@ -648,7 +648,7 @@ func Exec(c Case) kit.Outcome {
 				go run(ops[i+1], done)
 				select {
 				case <-done:
-				case <-time.After(10 * time.Millisecond):
+				case <-time.After(3 * time.Millisecond):
 					blocked++ // it waits for a lock A holds (or it is a pop that waits): A goes on, they finish side by side
 				}
 			}
